@@ -61,6 +61,7 @@ type op struct {
 	DelayMs int    `json:"delay_ms,omitempty"`
 	Open    bool   `json:"open,omitempty"`
 	Ms      int    `json:"ms,omitempty"`
+	N       int    `json:"n,omitempty"` // addmany
 }
 
 type life struct {
@@ -72,9 +73,29 @@ type life struct {
 }
 
 type script struct {
-	ID    string `json:"id"`
-	Cfg   config `json:"cfg"`
-	Lives []life `json:"lives"`
+	ID      string `json:"id"`
+	Backlog bool   `json:"large_backlog,omitempty"`
+	Cfg     config `json:"cfg"`
+	Lives   []life `json:"lives"`
+}
+
+// genBacklogScript: the "large backlog" family. Executor gated, queues large
+// enough to accept everything, 1100-1500 write-back and 150-400 tag-replication
+// Adds acknowledged, SIGKILL with all of them pending, (sometimes a second
+// gated life), then the fault-free final life must run every one of them.
+func genBacklogScript(r *rand.Rand, id string, quick bool) script {
+	s := script{ID: id, Backlog: true, Cfg: config{InBuf: 4000, RetryBuf: 4000, InW: 2, RetryW: 2}}
+	first := life{GateClosed: true, Kill: "now", Ops: []op{
+		{Op: "addmany", Kind: "wb", A: fmt.Sprintf("ns%d", r.Intn(3)), B: "backlog-" + id, N: map[bool]int{true: 1050 + r.Intn(101), false: 1100 + r.Intn(401)}[quick]},
+		{Op: "addmany", Kind: "tr", A: "repo/backlog-" + id, B: []string{"remote-a:80", "remote-b:80"}[r.Intn(2)], N: map[bool]int{true: 100 + r.Intn(51), false: 150 + r.Intn(251)}[quick]},
+		{Op: "dump"},
+	}}
+	s.Lives = append(s.Lives, first)
+	if r.Intn(2) == 0 {
+		// a second life that also dies with everything still unexecuted
+		s.Lives = append(s.Lives, life{GateClosed: true, Kill: "now", Ops: []op{{Op: "sleep", Ms: 100}, {Op: "dump"}}})
+	}
+	return s
 }
 
 func genScript(r *rand.Rand, id string, quick bool) script {
@@ -106,7 +127,7 @@ func genScript(r *rand.Rand, id string, quick bool) script {
 			switch x := r.Intn(10); {
 			case x < 5:
 				n++
-				o := op{Op: "add", DelayMs: pick(0, 0, 0, 25)}
+				o := op{Op: "add", DelayMs: pick(0, 0, 0, 25, 80, 400, 1500)}
 				if y := r.Intn(6); y < 2 {
 					// the same blob name written back under two namespaces (two
 					// different tasks; the executor fails them independently)
@@ -151,6 +172,7 @@ type row struct {
 	Key      string `json:"key"`
 	Status   string `json:"status"`
 	Failures int    `json:"failures"`
+	Due      bool   `json:"due"`
 }
 
 type mgrState struct {
@@ -166,8 +188,9 @@ type mgrState struct {
 type reply struct {
 	OK    bool     `json:"ok"`
 	Ready bool     `json:"ready"`
-	Err   string   `json:"err"`
-	WB    mgrState `json:"wb"`
+	Err    string   `json:"err"`
+	Failed []int    `json:"failed"`
+	WB     mgrState `json:"wb"`
 	TR    mgrState `json:"tr"`
 }
 
@@ -249,7 +272,7 @@ func readDB(dir string) (map[string]row, error) {
 				return nil, err
 			}
 			k := q.prefix + "|" + a + "|" + b
-			out[k] = row{k, st, f}
+			out[k] = row{Key: k, Status: st, Failures: f}
 		}
 		rs.Close()
 	}
@@ -368,7 +391,7 @@ const killSet = "write,pwrite64,fsync,fdatasync,unlink,unlinkat,ftruncate,rename
 func (r *runner) start(li int, l *life, final bool) (*proc.Child, reply, error) {
 	c := r.sc.Cfg
 	slow := c.SlowMs
-	if final && slow < 5 {
+	if final && slow < 5 && !r.sc.Backlog {
 		slow = 5 // keep the retry worker busy so that the retry queue overflows when many tasks are due together
 	}
 	args := []string{"-dir", r.dir, "-seed", fmt.Sprint(r.seed),
@@ -488,6 +511,33 @@ func (r *runner) execute() (expired string, pendingSet []string) {
 						run.Count("adds_refused", 1)
 						r.note("add refused %s: %s", key, rep.Err)
 					}
+				case "addmany":
+					var rep reply
+					if err := ch.Call(map[string]interface{}{"op": "addmany", "kind": o.Kind, "a": o.A, "b": o.B, "n": o.N}, &rep, 10*time.Minute); err != nil {
+						if err == proc.ErrTimeout {
+							run.Inconclusive(fmt.Sprintf("%s life %d: %d Adds did not finish", r.sc.ID, li, o.N))
+						}
+						died = true
+						break ops
+					}
+					bad := map[int]bool{}
+					for _, i := range rep.Failed {
+						bad[i] = true
+					}
+					for i := 0; i < o.N; i++ {
+						if bad[i] {
+							continue
+						}
+						key := fmt.Sprintf("wb|%s|%s-%d", o.A, o.B, i)
+						if o.Kind == "tr" {
+							key = fmt.Sprintf("tr|%s:%d|%s", o.A, i, o.B)
+						}
+						r.acked[key]++
+						r.ackLife[key] = li
+					}
+					run.Count("adds_acknowledged", int64(o.N-len(rep.Failed)))
+					run.Count("adds_refused", int64(len(rep.Failed)))
+					r.note("addmany %s: %d acknowledged, %d refused (%s)", o.Kind, o.N-len(rep.Failed), len(rep.Failed), rep.Err)
 				case "gate":
 					if _, ok := call(map[string]interface{}{"op": "gate", "open": o.Open}); !ok {
 						died = true
@@ -565,7 +615,7 @@ func (r *runner) execute() (expired string, pendingSet []string) {
 	defer ch.Kill()
 	r.structuralOrphans(hello)
 	finalStartLine := r.lifeStartLine
-	deadline := time.Now().Add(40 * time.Second)
+	deadline := time.Now().Add(40*time.Second + time.Duration(len(r.acked))*50*time.Millisecond)
 	for {
 		var rep reply
 		if err := ch.Call(map[string]interface{}{"op": "dump"}, &rep, callTimeout); err != nil {
@@ -573,11 +623,19 @@ func (r *runner) execute() (expired string, pendingSet []string) {
 			return "", nil
 		}
 		r.checkNeverLost(rowsOf(rep), "final life, in-life dump")
-		if orphans := r.orphanWatch(rep); len(orphans) > 0 {
-			run.Violation("pending-task-orphaned-outside-queues/"+kindOf(orphans[0]), r.sc.ID, r.witness(map[string]interface{}{
-				"orphaned_tasks": orphans, "state": rep, "poll_rounds_observed": orphanPollRounds,
+		pend, failedDue := r.orphanWatch(rep)
+		if len(pend) > 0 {
+			run.Violation("pending-task-orphaned-outside-queues/"+kindOf(pend[0]), r.sc.ID, r.witness(map[string]interface{}{
+				"orphaned_tasks": pend[:min(20, len(pend))], "orphaned_count": len(pend), "state": trimState(rep), "poll_rounds_observed": orphanPollRounds,
 				"why": fmt.Sprintf("with the executor healthy and the gate open these rows stayed 'pending' while both queues were empty and no execution was in flight "+
 					"in every dump over %d poll rounds of the manager, without a new attempt: the poller only re-reads failed rows, so nothing in this process will run them", orphanPollRounds)}))
+			return "", nil
+		}
+		if len(failedDue) > 0 {
+			run.Violation("ready-failed-task-never-polled/"+kindOf(failedDue[0]), r.sc.ID, r.witness(map[string]interface{}{
+				"tasks": failedDue[:min(20, len(failedDue))], "count": len(failedDue), "state": trimState(rep), "poll_rounds_observed": orphanPollRounds,
+				"why": fmt.Sprintf("these rows are 'failed', their delay and the retry interval elapsed more than 2 s ago, both queues were empty and nothing was in flight, "+
+					"yet over %d poll rounds (GetFailed calls) of the manager none of them was attempted or re-marked pending: the poller never sees them", orphanPollRounds)}))
 			return "", nil
 		}
 		u := r.unfinished()
@@ -661,7 +719,7 @@ type orphanObs struct {
 // execution (queues are fed by Add and by the poller, and the poller only
 // reads failed rows). Progress is measured in the manager's own poll rounds,
 // never in wall-clock time.
-func (r *runner) orphanWatch(rep reply) []string {
+func (r *runner) orphanWatch(rep reply) (pendingOrphans, failedOrphans []string) {
 	if r.orphan == nil {
 		r.orphan = map[string]*orphanObs{}
 	}
@@ -670,22 +728,28 @@ func (r *runner) orphanWatch(rep reply) []string {
 	for _, a := range att {
 		count[a.Key]++
 	}
-	var out []string
 	seen := map[string]bool{}
 	for _, st := range []mgrState{rep.WB, rep.TR} {
 		idle := st.QIn == 0 && st.QRetry == 0 && len(st.Inflight) == 0
 		for _, x := range st.Rows {
-			if x.Status != "pending" || !idle {
+			// pending outside the queues, or failed although due for a retry by the
+			// manager's own criterion (delay elapsed, retry interval elapsed)
+			if !idle || !(x.Status == "pending" || x.Status == "failed" && x.Due) {
 				continue
 			}
-			seen[x.Key] = true
-			o := r.orphan[x.Key]
+			id := x.Status + " " + x.Key
+			seen[id] = true
+			o := r.orphan[id]
 			if o == nil || o.attempts != count[x.Key] {
-				r.orphan[x.Key] = &orphanObs{polls0: st.Polls, attempts: count[x.Key]}
+				r.orphan[id] = &orphanObs{polls0: st.Polls, attempts: count[x.Key]}
 				continue
 			}
 			if st.Polls-o.polls0 >= orphanPollRounds {
-				out = append(out, x.Key)
+				if x.Status == "pending" {
+					pendingOrphans = append(pendingOrphans, x.Key)
+				} else {
+					failedOrphans = append(failedOrphans, x.Key)
+				}
 			}
 		}
 	}
@@ -694,8 +758,19 @@ func (r *runner) orphanWatch(rep reply) []string {
 			delete(r.orphan, k) // condition interrupted: start over
 		}
 	}
-	sort.Strings(out)
-	return out
+	sort.Strings(pendingOrphans)
+	sort.Strings(failedOrphans)
+	return pendingOrphans, failedOrphans
+}
+
+// trimState keeps witnesses small for large backlogs.
+func trimState(rep reply) reply {
+	for _, st := range []*mgrState{&rep.WB, &rep.TR} {
+		if len(st.Rows) > 40 {
+			st.Rows = st.Rows[:40]
+		}
+	}
+	return rep
 }
 
 func stderrOf(c *proc.Child) string {
@@ -789,6 +864,15 @@ func (r *runner) dupStrictScenario(li int, kind string, gateClosedAfter bool, ca
 func runScript(t *testing.T, run *ev.Run, bin, base string, sc script, seed int64) {
 	for attempt := 0; attempt < 2; attempt++ {
 		dir := filepath.Join(base, fmt.Sprintf("%s-%d", sc.ID, attempt))
+		if sc.Backlog {
+			// ~6000 sqlite commits: keep this family's database on tmpfs when there is
+			// one (identical under the process-kill model: no power loss), so that the
+			// fsyncs do not dominate the quick tier; removed below
+			if d, err := os.MkdirTemp("/dev/shm", "verif-c30-"); err == nil {
+				dir = filepath.Join(d, fmt.Sprintf("%s-%d", sc.ID, attempt))
+				defer os.RemoveAll(d)
+			}
+		}
 		if err := os.MkdirAll(dir, 0o755); err != nil {
 			t.Fatal(err)
 		}
@@ -803,7 +887,7 @@ func runScript(t *testing.T, run *ev.Run, bin, base string, sc script, seed int6
 			}
 		}
 		if attempt == 0 {
-			run.Case(ev.JSON(sc), r.killsWithUnfinished > 0 && fails > 0)
+			run.Case(ev.JSON(sc), r.killsWithUnfinished > 0 && (fails > 0 || sc.Backlog))
 			run.Count("attempts_logged", int64(len(att)))
 			run.Count("failed_attempts_logged", int64(fails))
 			run.Count("kills_with_unfinished_acked_tasks", int64(r.killsWithUnfinished))
@@ -828,8 +912,9 @@ func TestC30(t *testing.T) {
 		"PRNG-generated kill scripts against the real persistedretry managers (write-back + tag replication) on one sqlite db: per script a queue/worker/"+
 			"fault configuration and 3-7 process lives, each with 3-12 operations (Add of new write-back / tag-replication tasks with and without delay, duplicate Adds, "+
 			"executor gate toggles, pauses, consistency dumps) ended by SIGKILL (between requests, with executions blocked in the executor, or on entry to the N-th "+
-			"write-type syscall under strace fault injection), then a fault-free final life. A script is non-trivial when at least one kill hit while an acknowledged "+
-			"task was unfinished and at least one failed attempt was logged; distinct = distinct scripts.")
+			"write-type syscall under strace fault injection), then a fault-free final life; plus a large-backlog family (gated executor, 1100-1500 write-back and 150-400 tag-replication Adds "+
+			"acknowledged into queues of 4000, SIGKILL with everything pending, restart with a healthy executor). A script is non-trivial when at least one kill hit while an acknowledged "+
+			"task was unfinished and at least one failed attempt was logged (backlog family: a kill with the whole backlog unfinished); distinct = distinct scripts.")
 	defer run.Finish()
 	run.Assume("process-crash model: completed syscalls persist after SIGKILL (no power loss); the attempt log is written with one write(2) per line and not fsync'ed")
 	run.Assume("the scripted executor (child) is the only fake; managers, stores, sqlite and migrations are the real code")
@@ -843,6 +928,14 @@ func TestC30(t *testing.T) {
 	for i := 0; i < n; i++ {
 		scripts = append(scripts, genScript(r, fmt.Sprintf("k%d", i), run.Quick()))
 	}
+	// the large-backlog family: one script in quick, four in thorough (first, so
+	// that they overlap with the short scripts)
+	rb := run.Rand("backlog-scripts")
+	var big []script
+	for i := 0; i < run.N(1, 4); i++ {
+		big = append(big, genBacklogScript(rb, fmt.Sprintf("big%d", i), run.Quick()))
+	}
+	scripts = append(big, scripts...)
 	var wg sync.WaitGroup
 	sem := make(chan struct{}, 8)
 	for i := range scripts {
